@@ -26,6 +26,8 @@ inductive Src where
   | val (v : Nat)        -- unconnected channel holding the (atomic) value `v`
   | conn (sib : Nat)     -- connected to the output of sibling `sib`
   | link (i : Nat)       -- value-linked to input `i` of the enclosing composite
+  | multi (sibs : List Nat)  -- several connections, in priority order (`connect` puts the newest first; `fetch` takes
+                             -- the first one that holds data — every upstream node has run, so: the first)
   deriving Repr, DecidableEq
 
 inductive T where
@@ -48,6 +50,8 @@ def srcVal {ρ} (S : Sem ρ) (vals : List ρ) (ev : Nat → ρ) : Src → ρ
   | .val v => S.atom v
   | .conn sib => ev sib
   | .link i => vals.getD i S.nd
+  | .multi [] => S.nd
+  | .multi (sib :: _) => ev sib
 
 /-- the output of child `label` of a composite with children `kids` whose own inputs hold `vals` -/
 def evalKid {ρ} (S : Sem ρ) : Nat → List ρ → List (Nat × T) → Nat → ρ
